@@ -226,7 +226,7 @@ func topFrames(g string) string {
 		}
 		l = strings.TrimPrefix(l, "github.com/blinklabs-io/gouroboros/")
 		fs = append(fs, l)
-		if len(fs) >= 4 {
+		if len(fs) >= 7 {
 			break
 		}
 	}
@@ -562,6 +562,56 @@ loop:
 	return
 }
 
+// After the local side stopped one mini-protocol client (its muxer receiver is
+// unregistered, the protocol id stays known), the peer sends a surplus
+// segment for that protocol id + direction; then ANOTHER protocol's client
+// is stopped and the connection closed, each with the hang bound.
+func scenarioSurplusAfterStop() (r scenResult, stop1, stop2 bool) {
+	base := idSet(ourGoroutines())
+	p := peer.New(true)
+	errChan := make(chan error, 10)
+	conn, err := ouroboros.NewConnection(ouroboros.WithConnection(p.Client), ouroboros.WithNetworkMagic(peer.Magic),
+		ouroboros.WithErrorChan(errChan), ouroboros.WithNodeToNode(true), ouroboros.WithKeepAlive(false))
+	if err != nil {
+		p.Close()
+		r.SetupError = err.Error()
+		return
+	}
+	stop1 = peer.WaitOrHang(5*time.Second, func() { conn.ChainSync().Client.Stop() })
+	time.Sleep(100 * time.Millisecond)
+	p.SendMsgs(chainsync.ProtocolIdNtN, false, chainsync.NewMsgAwaitReply())
+	time.Sleep(300 * time.Millisecond)
+	stop2 = peer.WaitOrHang(5*time.Second, func() { conn.BlockFetch().Client.Stop() })
+	r.Returned = true
+	r.CloseRet = peer.WaitOrHang(5*time.Second, func() { conn.Close() })
+	p.Close()
+	dl := time.After(5 * time.Second)
+loop:
+	for {
+		select {
+		case _, ok := <-errChan:
+			if !ok {
+				r.ErrClosed = true
+				break loop
+			}
+		case <-dl:
+			break loop
+		}
+	}
+	for w := 10 * time.Millisecond; w < 3*time.Second; w *= 2 {
+		gs := newGoroutines(base)
+		r.Leaked = nil
+		if len(gs) == 0 {
+			break
+		}
+		for _, g := range gs {
+			r.Leaked = append(r.Leaked, topFrames(g))
+		}
+		time.Sleep(w)
+	}
+	return
+}
+
 // tx-submission server: Init, blocking RequestTxIds answered by Done, the
 // server restarts the protocol; repeated on one connection.  Run in a child
 // process: a panic in a library goroutine kills the process.
@@ -701,6 +751,7 @@ func run(c *vh.Ctx) error {
 				todo = append(todo, sc{"flood-over-byte-limit." + k, m})
 			}
 		}
+		todo = append(todo, sc{"chainsync-stop-then-blockfetch-stop", "surplus-segment-after-stop"})
 		todo = append(todo, sc{"txsubmission-server.Done-restart", "repeat"})
 	}
 	byName := map[string]apiCall{}
@@ -717,6 +768,43 @@ func run(c *vh.Ctx) error {
 			c.Res.Count(canon, true, "txsubmission-restart")
 			if !ok {
 				c.Res.Violate("monitor", "c15:crash:txsubmission-server:Done-restart", "the process died while a raw client repeated Init / RequestTxIds(blocking) -> Done (protocol restart): "+out, t)
+			}
+			continue
+		case t.Script == "surplus-segment-after-stop":
+			r, stop1, stop2 := scenarioSurplusAfterStop()
+			c.Res.Count(canon, true, "surplus-after-stop")
+			if r.SetupError != "" {
+				c.Res.Notes = append(c.Res.Notes, canon+": setup failed: "+r.SetupError)
+				continue
+			}
+			if !stop1 {
+				c.Res.Notes = append(c.Res.Notes, canon+": the first Stop (chain-sync, before any misbehaviour) did not return within 5 s; scenario not judged")
+				continue
+			}
+			muxLeak := false
+			for _, l := range r.Leaked {
+				if strings.Contains(l, "muxer.(*Muxer).readLoop") {
+					muxLeak = true
+				}
+			}
+			bad := !stop2 || muxLeak
+			addCase("muxer/muxer.go", "(*Muxer).readLoop", bad, t)
+			c.Res.TracesValidated++
+			if !stop2 {
+				c.Res.Violate("monitor", "c15:stop-hangs-after-surplus-segment:blockfetch.Client.Stop",
+					"after chain-sync Client.Stop() and a surplus chain-sync segment from the peer, block-fetch Client.Stop() did not return within 5 s; goroutines: "+strings.Join(r.Leaked, " || "), t)
+			}
+			if muxLeak {
+				c.Res.Violate("monitor", "c15:leak:muxer.readLoop:surplus-segment-after-stop",
+					fmt.Sprintf("%d goroutines survive Close: %s", len(r.Leaked), strings.Join(r.Leaked, " || ")), t)
+			} else if len(r.Leaked) > 0 && stop2 {
+				c.Res.Violate("monitor", "c15:leak:"+canon, fmt.Sprintf("%d goroutines survive Close: %s", len(r.Leaked), strings.Join(r.Leaked, " || ")), t)
+			}
+			if !r.CloseRet {
+				c.Res.Violate("monitor", "c15:close-hangs:"+canon, "Connection.Close did not return within 5 s", t)
+			}
+			if !r.ErrClosed {
+				c.Res.Violate("monitor", "c15:errorchan-not-closed:"+canon, "ErrorChan not closed 5 s after Close", t)
 			}
 			continue
 		case strings.HasPrefix(t.Call, "flood-over-byte-limit."):
